@@ -630,6 +630,7 @@ def transitivity_bd(A):
                         = 2 * (K(K-1)/2 - diag(A^2))
                         = K(K-1) - 2(diag(A^2))
     '''
+    A = np.asarray(A, dtype=float)  # products of boolean matrices are logical
     S = A + A.T  # symmetrized input graph
     K = np.sum(S, axis=1)  # total degree (in+out)
     cyc3 = np.diag(np.dot(S, np.dot(S, S))) / 2  # number of 3-cycles
@@ -656,6 +657,7 @@ def transitivity_bu(A):
     T : float
         transitivity scalar
     '''
+    A = np.asarray(A, dtype=float)  # products of boolean matrices are logical
     tri3 = np.trace(np.dot(A, np.dot(A, A)))
     tri2 = np.sum(np.dot(A, A)) - np.trace(np.dot(A, A))
     return tri3 / tri2
